@@ -393,7 +393,7 @@ class RandomSource:
             first = True
             for _ in range(self.n):
                 r = rng.random()
-                if first or (not on and r < 0.5):
+                if first or (not on and r < 0.5) or (on and r < 0.03):      # (also while the previous period is still on)
                     first = False
                     on = True
                     yield {"e": "aenable"}
